@@ -164,6 +164,10 @@ def _is_empty_default(fd, op):
     if op['k'] == 'const':
         ty = op.get('ty', '')
         return '; 0]' in ty or op.get('disp') in ('b""', '""')
+    # &BlindFactor(Scalar::ZERO): the documented default of an absent blind factor
+    if body.local_ty(op['pl']['l']) == '&bbsplus::commitment::BlindFactor':
+        at = fd.read_op(op)
+        return bool(at) and all(a[0] == 'a' and a[1].endswith('::ZERO') for a in at)
     l = op['pl']['l']
     seen = set()
     while True:
@@ -272,7 +276,8 @@ def rule_option_normalisation(ctx, entry_suffixes, cfg='prod-all', exclude=()):
         body = resolve_fn(prog, suffix)
         for k in range(1, body.arg_count + 1):
             ty = body.local_ty(k)
-            if not (ty.startswith('std::option::Option<&[') or ty.startswith('std::option::Option<std::vec::Vec<')):
+            if not (ty.startswith('std::option::Option<&[') or ty.startswith('std::option::Option<std::vec::Vec<')
+                    or ty == 'std::option::Option<&bbsplus::commitment::BlindFactor>'):
                 continue
             if (suffix, body.local_name(k)) in exclude:
                 continue  # tabled: the documented default of this parameter is not the empty string
